@@ -73,7 +73,12 @@ func (l *c02Bank) move(from, to common.Address, amt sdkmath.Int) error {
 	return nil
 }
 
-var c02 struct{ bank *c02Bank }
+var c02 struct {
+	bank    *c02Bank
+	rewards sdkmath.Int // pending staking rewards of the delegator that the distribution hooks pay out when a delegation changes
+}
+
+var c02Distr = common.HexToAddress("0x5000000000000000000000000000000000000005") // distribution module account
 
 // the staking module: moves the delegated coins to the bonded pool / back (undelegation pays out later, nothing moves now)
 func c02Delegate(ctx context.Context, m *stakingtypes.MsgDelegate) error {
@@ -81,7 +86,14 @@ func c02Delegate(ctx context.Context, m *stakingtypes.MsgDelegate) error {
 		return nil
 	}
 	from := common.BytesToAddress(sdk.MustAccAddressFromBech32(m.DelegatorAddress).Bytes())
-	return c02.bank.move(from, c02Pool, m.Amount.Amount)
+	if err := c02.bank.move(from, c02Pool, m.Amount.Amount); err != nil {
+		return err
+	}
+	// BeforeDelegationSharesModified: outstanding rewards of an existing delegation are withdrawn to the delegator
+	if !c02.rewards.IsNil() && c02.rewards.IsPositive() {
+		return c02.bank.move(c02Distr, from, c02.rewards)
+	}
+	return nil
 }
 
 func c02Hex(a common.Address) string { return string(rune('A' + int(a[0]>>4) - 1)) }
@@ -105,6 +117,12 @@ func VerifC02_StakingMirror() {
 		bank.supply = bank.supply.Add(b)
 	}
 	bank.bal[c02Pool], init[c02Pool] = sdk.ZeroInt(), sdk.ZeroInt()
+	c02.rewards = sdk.ZeroInt()
+	if zz.ParamInt("rewards", 1) == 1 && zz.AnyBool("delegatorHasPendingRewards") {
+		c02.rewards = zz.AnyAmount("pendingRewards", 64)
+	}
+	bank.bal[c02Distr], init[c02Distr] = c02.rewards, c02.rewards
+	bank.supply = bank.supply.Add(c02.rewards)
 	supply0 := bank.supply
 	db := statedb.New(ctx, bank, statedb.NewEmptyTxConfig(common.Hash{}))
 
@@ -177,7 +195,8 @@ func VerifC02_StakingMirror() {
 		zz.Reach("precompile-failed")
 	} else {
 		zz.Reach("delegated")
-		exp[named], exp[c02Pool] = exp[named].Sub(amt), exp[c02Pool].Add(amt)
+		exp[named], exp[c02Pool] = exp[named].Sub(amt).Add(c02.rewards), exp[c02Pool].Add(amt)
+		exp[c02Distr] = exp[c02Distr].Sub(c02.rewards)
 	}
 	// the contract goes on: pays somebody after the precompile call
 	if viaContract && zz.AnyBool("contractPaysThirdPartyAfter") {
@@ -187,12 +206,15 @@ func VerifC02_StakingMirror() {
 		panic(err)
 	}
 	shape := ""
-	if err == nil && named == c04Origin && caller != c04Origin && touched[c04Origin] {
+	switch {
+	case err == nil && named == c04Origin && caller != c04Origin && touched[c04Origin]:
 		shape = " [shape C02-F1 delegator = signer, caller = contract, signer journal-dirty]"
+	case err == nil && named == caller && c02.rewards.IsPositive():
+		shape = " [shape C02-F5 delegation pays out pending rewards, only the delegated amount is mirrored]"
 	}
 	zz.ObserveInt("supply", bank.supply)
 	zz.Assert(bank.supply.Equal(supply0), "EVM execution leaves the total supply unchanged"+shape)
-	for _, a := range []common.Address{c04Origin, c04Contract, c04Other, c02Pool} {
+	for _, a := range []common.Address{c04Origin, c04Contract, c04Other, c02Pool, c02Distr} {
 		zz.ObserveInt("final."+c02Hex(a), bank.get(a))
 		zz.Assert(bank.get(a).Equal(exp[a]), "every bank balance = before + received - sent - delegated"+shape)
 	}
